@@ -99,6 +99,18 @@ def crossing (c : Rat) : Rat → List Pt → List Rat → Option Pt → Option P
 
 def lsum (l : List Rat) : Rat := l.foldl (· + ·) 0
 
+/-- SPECIFICATION: the point at arc length `c > 0` from the first point of a polyline whose segments have lengths `ls` -/
+def pointAt : Rat → List Pt → List Rat → Option Pt
+  | c, p :: q :: rest, l :: ls => if c ≤ l then some (lerp p q (c / l)) else pointAt (c - l) (q :: rest) ls
+  | _, _, _ => none
+
+/-- the segment lengths fit the points: one length per segment, and a zero-length segment joins equal points (true of the
+Euclidean lengths the code computes) -/
+def fits : List Pt → List Rat → Prop
+  | p :: q :: rest, l :: ls => (l = 0 → p = q) ∧ fits (q :: rest) ls
+  | [_], [] => True
+  | _, _ => False
+
 /-- coordinates of the new junction and the two vertex lists.  `init` is the initial value of
 `junction_coordinates` (`some start` in the repaired code, `none` = unbound in the pinned code). -/
 def geometry (s e : Node) (verts : List Pt) (segLens : List Rat) (f : Rat) (init : Option Pt) :
